@@ -727,7 +727,7 @@ func (w *smtWriter) emit(t *Term) string {
 		hasBound = containsBVar(t)
 		var head string
 		switch t.Op {
-		case "extract", "zext", "sext":
+		case "extract", "zext", "sext", "fpnan", "fp.rti":
 			head = t.Name
 		case "constarr":
 			head = fmt.Sprintf("(as const %s)", t.S)
